@@ -37,6 +37,7 @@ class UnitResult:
         self.wall = 0.0
         self.cex = {}           # obligation -> counterexample text
         self.thorough_incomplete = []
+        self.replay = {}
         self.stability = []
 
 
@@ -227,11 +228,45 @@ def _kani_unit(unit, tier, seed, pid=None):
                 res.cex[o.name] = _extract_playback(out, o.harness)
             for f in bad_f:
                 res.cex[f["obligation"]] = _extract_playback(out, f["harness"])
+            # replay every counterexample NATIVELY on the extracted text (cargo kani playback): a counterexample that
+            # does not reproduce the failure is a verifier artefact -> the obligation is undecided, never a violation
+            if unit["mode"] != "M":
+                for o in bad:
+                    verdict = _native_playback(unit, crate_dir, res.cex.get(o.name, ""))
+                    res.replay[o.name] = verdict
+                    if verdict and verdict.get("reproduced") is False:
+                        o.status = "undecided"
+                        o.detail = "Kani counterexample does NOT reproduce when executed natively (spurious; verifier modelling artefact)\n" + o.detail
+                        res.undecided.append("%s: spurious counterexample (native playback of the extracted text passes): %s" % (o.name, o.detail[:600]))
     finally:
         if scratch_copy and not os.environ.get("VX_KEEP"):
             shutil.rmtree(os.path.dirname(scratch_copy) if unit.get("scratch_parent") else scratch_copy, ignore_errors=True)
     res.wall = time.time() - t0
     return res
+
+
+def _native_playback(unit, crate_dir, test_text):
+    """append Kani's concrete-playback unit test to the generated crate and execute it natively"""
+    if not test_text or "fn kani_concrete_playback" not in test_text:
+        return None
+    mm = re.search(r"fn (kani_concrete_playback_\w+)", test_text)
+    lib = os.path.join(crate_dir, "src", "lib.rs")
+    src = open(lib).read()
+    i = src.rindex("}")
+    open(lib, "w").write(src[:i] + "\n" + test_text + "\n" + src[i:])
+    env = dict(R.KANI_ENV, CARGO_TARGET_DIR=os.path.join(R.BUILD, "kani-target", unit["name"] + "-playback"))
+    try:
+        p = subprocess.run(["cargo", "kani", "playback", "-Z", "concrete-playback", "--", mm.group(1)], cwd=crate_dir, env=env, capture_output=True, text=True, timeout=900)
+        out = p.stdout + p.stderr
+    except Exception as e:  # noqa
+        return {"error": str(e)}
+    finally:
+        open(lib, "w").write(src)
+    if re.search(r"test result: FAILED|panicked at", out):
+        return {"reproduced": True, "replayed_on": "extracted-text (native execution of Kani's concrete playback test)", "output": out[-1500:]}
+    if re.search(r"test result: ok\. 1 passed", out):
+        return {"reproduced": False, "replayed_on": "extracted-text", "output": out[-800:]}
+    return {"error": "could not run playback", "output": out[-800:]}
 
 
 def _missing_helpers(crate_dir, unit):
@@ -388,7 +423,7 @@ def check_property(pid, tier, seed, only_unit=None):
                 discharged += 1
             elif o.status == "fail":
                 cex = r.cex.get(o.name, "")
-                replay = _try_native_replay(pid, r.unit, o, cex)
+                replay = r.replay.get(o.name) or _try_native_replay(pid, r.unit, o, cex)
                 path = write_replay(pid, o.name, {"property": pid, "obligation": o.name, "label": getattr(o, "label", ""), "backend": o.backend,
                                                   "verifier_output": o.detail, "counterexample": cex or None, "native_replay": replay,
                                                   "unit": r.unit["name"], "functions": [c.path for c in r.cuts]})
